@@ -3,6 +3,8 @@
 import json, subprocess, sys
 
 HOOK_COMMITS = ["2da8d59"]
+FIX_NOTE = "fix: commits in /repo (each found by a check, see known_findings.json and DESIGN.md 12.1): " + ", ".join(
+    l.split()[0] for l in subprocess.check_output(["git", "-C", "/repo", "log", "--format=%h %s"]).decode().splitlines() if " fix:" in " " + l.split(" ", 1)[1][:5] or l.split(" ", 1)[1].startswith("fix:"))
 
 COMMON_NOTE = ("Trusted base: the simulator in /verif/sim (baton scheduler, spin-loop-to-blocked rule, "
                "vector clocks), the harness-side probes/element types, rustc/std. Sampling, not enumeration: "
@@ -83,12 +85,14 @@ def main():
             "add_only": True,
         },
         "engines": [
+            {"name": "miri-cross-check", "path": "/verif/miri", "serves_properties": ["C07", "C08", "C15"],
+             "kind_free_text": "auxiliary, thorough tier only: plain std::thread scenarios over the real crate under cargo +nightly miri (-Zmiri-many-seeds, tree borrows): Miri's own seeded scheduler, weak-memory emulation, data-race / use-after-free / double-free / leak detection as an independent cross-check of engine A's vector clocks and ledgers; never the sole basis of a claim"},
             {"name": "orxsim", "path": "/verif/sim", "serves_properties": [c["property_id"] for c in checks],
              "kind_free_text": "deterministic simulator: real OS threads run one at a time under a seeded baton scheduler at every atomic operation of the real crate; spin loops modelled as Blocked; vector-clock happens-before; fault injection (preemption, freeze, panic, abandonment, skip, stale loads); history oracles incl. linearizability; replay files + minimisation"},
         ],
         "checks": checks,
         "not_applicable": na,
-        "notes": "See DESIGN.md. Violations are reported as `VIOLATION property=<id> replay=<path>`; known findings (known_findings.json) as `KNOWN-FINDING:` lines. VERIF_SEED selects the base seed (default 1); VERIF_RUNS / VERIF_WORKERS override the budget.",
+        "notes": FIX_NOTE + ". See DESIGN.md. Violations are reported as `VIOLATION property=<id> replay=<path>`; known findings (known_findings.json) as `KNOWN-FINDING:` lines. VERIF_SEED selects the base seed (default 1); VERIF_RUNS / VERIF_WORKERS override the budget.",
     }
     json.dump(m, open('/verif/MANIFEST.json', 'w'), indent=1)
     print(f"{len(checks)} checks claimed, {len(na)} not claimed")
